@@ -27,12 +27,19 @@ import (
 	"verifharness/henv"
 )
 
+// signTxGasLimit: when non-zero, transactions built by signTx declare this gas limit (the field is the
+// signer's; a hook transaction's signer is whoever wrote the deposit's data on L1).
+var signTxGasLimit uint64
+
 // signTx builds and signs a transaction the way a wallet would (SIGN_MODE_DIRECT).
 func signTx(l2 *henv.L2, msgs []sdk.Msg, privs []cryptotypes.PrivKey, accNums, accSeqs []uint64, chainID string) []byte {
 	txConfig := l2.Enc.TxConfig
 	b := txConfig.NewTxBuilder()
 	if err := b.SetMsgs(msgs...); err != nil {
 		panic(err)
+	}
+	if signTxGasLimit > 0 {
+		b.SetGasLimit(signTxGasLimit) // the signer declares a gas limit of its own in the transaction's fee
 	}
 	mode, err := authsign.APISignModeToInternal(txConfig.SignModeHandler().DefaultMode())
 	if err != nil {
@@ -139,6 +146,12 @@ func genC07Case(rt *rapid.T) *c07Case {
 		panic(err)
 	}
 
+	if rapid.IntRange(0, 3).Draw(rt, "declaredGas") == 0 {
+		// the hook transaction states a gas limit of its own, far above what the chain allows hooks
+		signTxGasLimit = rapid.SampledFrom([]uint64{1, 60_000, 5_000_000, 1 << 62}).Draw(rt, "declaredGasLimit")
+		cs.desc += fmt.Sprintf("hook-tx-declares-gas=%d;", signTxGasLimit)
+		defer func() { signTxGasLimit = 0 }()
+	}
 	// recipient
 	cs.toClass = rapid.SampledFrom(c07ToClasses).Draw(rt, "toClass")
 	cs.payload = rapid.SampledFrom(c07Payloads).Draw(rt, "payload")
